@@ -83,6 +83,15 @@ class C05(Check):
             targets = rng.sample(keys, rng.randint(1, min(3, len(keys))))
             troots = {uni.root_of[k] for k in targets}
             reads.append(W.rf_op(rng, uni, targets, [x for x in range(nroots) if x not in troots], allow_unreg=scn["allow_unreg"]))
+        # history: the same reads again with the opposite allow_unregulated_fixed_port_id flag, in the same process, same files:
+        # each verdict belongs to its own call
+        flipped = []
+        for op in reads[: 2 + nroots]:
+            op2 = copy.deepcopy(op)
+            op2["allow_unreg"] = not op.get("allow_unreg", False)
+            flipped.append(op2)
+        order_first = rng.random() < 0.5
+        reads = (flipped + reads) if order_first else (reads + flipped)
         scn2 = {"ws": ws, "symlinks": W.symlinks_for(ws)}
         w = World(scn2)
         try:
@@ -105,7 +114,7 @@ class C05(Check):
                         a["st"] = "abs"
                 targets, vis = W.op_targets(uni, op)
                 closure = uni.closure(targets, vis)
-                reasons, opens = W.model_verdict(uni, targets, vis, scn["allow_unreg"])
+                reasons, opens = W.model_verdict(uni, targets, vis, bool(op.get("allow_unreg", False)))
                 raw_in = [(d, v) for d, v in touched_raw if T.def_key(d) in closure]
                 if any(v == "reject" for _d, v in raw_in):
                     reasons.append("raw-injection")
